@@ -25,6 +25,11 @@ for f in sorted(glob.glob(os.path.join(V, 'known', '*.json'))):
     if os.path.basename(f)[:-5] in hold:
         continue
     findings += json.load(open(f))
+# dedupe by id (a finding may be listed in known/fixed.json and again in its property's fragment): the later wins
+_seen = {}
+for x in findings:
+    _seen[x['id']] = x
+findings = list(_seen.values())
 json.dump({'comment': 'committed list of defects of the unchanged tree that are recorded rather than repaired (status known) and of repaired ones (status fixed; suppress nothing). Never written at run time.',
            'findings': findings}, open(os.path.join(V, 'known_findings.json'), 'w'), indent=1)
 print('checks:', [c['property_id'] for c in m['checks']], 'findings:', [(x['id'], x['status']) for x in findings])
